@@ -26,13 +26,10 @@ func TraverseSlots(p *load.Program, tb *kinds.Table) *report.RuleResult {
 		return res
 	}
 	// the wrapped visitor field(s): fields of Traverser of type ast.Visitor
-	st, _ := im.RecvT.Underlying().(*types.Struct)
 	visitorFields := map[string]bool{}
-	if st != nil {
-		for i := 0; i < st.NumFields(); i++ {
-			if n, ok := st.Field(i).Type().(*types.Named); ok && n.Obj().Name() == "Visitor" && load.Rel(n.Obj().Pkg()) == "pkg/ast" {
-				visitorFields[st.Field(i).Name()] = true
-			}
+	for _, f := range im.AllFields() {
+		if n, ok := f.Type().(*types.Named); ok && n.Obj().Name() == "Visitor" && load.Rel(n.Obj().Pkg()) == "pkg/ast" {
+			visitorFields[f.Name()] = true
 		}
 	}
 	if len(visitorFields) != 1 {
